@@ -384,6 +384,8 @@ def binary_cross_entropy(y_pred:Tensor, y_true:Tensor):
             raise RuntimeError(f"{grad_output.device} not supported")
         
         if y_pred.requires_grad: y_pred._grad += loss_grad_data
+        if y_true.requires_grad: # the loss is affine in the target: d/dt = log(1-p) - log(p)
+            y_true._grad += cpu_ops.bce_loss_target_backward(grad_output.data, y_pred.data)
     
     if loss.requires_grad: loss.grad_fn = BackwardFunction(backward, loss._operation)
     
@@ -426,6 +428,7 @@ def binary_cross_entropy_with_logits(y_pred:Tensor, y_true:Tensor):
             raise RuntimeError(f"{grad_output.device} not supported")
         
         if y_pred.requires_grad: y_pred._grad += loss_grad_data
+        if y_true.requires_grad: y_true._grad += -y_pred.data * grad_output.data # d/dt of (1-t)*x + softplus(-x)
     
     if loss.requires_grad: loss.grad_fn = BackwardFunction(backward, loss._operation)
     
